@@ -1268,3 +1268,40 @@ def run_case(ctx, i, rng):
                     'writes_ok': h.n_write_ok, 'writes_rejected':
                     h.n_write_rej, 'reads_after_mutation':
                     h.n_read_after_mut})
+
+
+CONTRACT_TEST_FILES = ['tests/unittest/pywbem_mock/test_inmemory_repository.py',
+                       'tests/unittest/pywbem_mock/test_multi_ns_assoc.py',
+                       'tests/unittest/pywbem_mock/test_complexassoc.py',
+                       'tests/unittest/pywbem_mock/test_wbemconnection_mock.py']
+
+
+def post_run(tier, seed, workdir):
+    """Thorough tier: an icontract class invariant on InMemoryObjectStore
+    (every object filed under its own name, keys unique case-insensitively)
+    rides along the repository's own mock-server unit tests."""
+    if tier != 'thorough':
+        return {}
+    from vf.contracts import run_repo_tests_with_contracts
+    rep = run_repo_tests_with_contracts(CONTRACT_TEST_FILES, workdir,
+                                        timeout=1500)
+    if 'error' in rep:
+        return {'inconclusive': [rep['error']]}
+    out = {'events': {'contracts:InMemoryObjectStore.invariant.repo-tests':
+                      rep['store_invariant_evaluations']},
+           'extra': {'repo_tests_under_contract': {
+               'files': rep['files'], 'pytest': rep['pytest_tail'],
+               'mode': rep['mode'],
+               'store_invariant_evaluations':
+                   rep['store_invariant_evaluations']}},
+           'violations': []}
+    for msg in rep['store_invariant_violations'][:1]:
+        out['violations'].append({
+            'key': 'contract.InMemoryObjectStore.invariant',
+            'what': 'while the repository tests ran, the object store '
+                    'violated its class invariant: %s' % msg,
+            'case': None, 'seed': seed, 'detail': rep})
+    if not rep['store_invariant_evaluations']:
+        out['inconclusive'] = ['store invariant was never evaluated during '
+                               'the repository tests']
+    return out
